@@ -161,6 +161,10 @@ def build(spec):
         lay['ab'], lay['ae'] = segs['A']
     if 'S' in segs:
         lay['sb'], lay['se'] = segs['S']
+    elif spec.get('empty_stext'):
+        # a supplemental TEXT segment of length zero, declared with non-zero offsets (end = begin - 1)
+        lay['sb'] = segs['D'][0]
+        lay['se'] = lay['sb'] - 1
     text_lay = dict(lay)
     if placement == 'header' and not spec.get('text_offsets_too', True):
         text_lay['db'] = text_lay['de'] = 0
